@@ -113,6 +113,12 @@ def gen_spec(rng, tier="quick", for_crash=False):
         lab["stubWidth"] = rng.choice([1, 2, 0])
     if rng.random() < 0.15:
         lab["lineSpacing"] = rng.choice([2, 14, 0, 5])
+    if rng.random() < 0.12:
+        # labella.js keeps the renderer's settings with the engine's; scripts ported from it (examples/timeline_up.py) pass them here, where they have
+        # no meaning: the layer thickness is the thickest padded label and the gap is the timeline's own `layerGap`
+        lab["nodeHeight"] = rng.choice([12, 10, 4, 30])
+        if rng.random() < 0.3:
+            lab["layerGap"] = rng.choice([5, 100])
     if lab or rng.random() < 0.3:
         o["labella"] = lab
     if rng.random() < 0.25:
